@@ -109,7 +109,8 @@ def parse_sidecar(path):
             # starting at the first one that contains the literal token; wrapped in the @open / @close text
             f = [x.strip() for x in s[7:].split(" :: ")]
             cur_item = ItemSpec(f[0], f[1])
-            cur_item.region = (f[2].split(None, 1)[1].strip(), int(f[3]))
+            kind_, arg_ = f[2].split(None, 1)
+            cur_item.region = ((arg_.strip() if kind_ == "first_with" else "call:" + arg_.strip()), int(f[3]))
             spec["items"].append(cur_item)
             cur_fn = cur_item.fns.setdefault("", FnSpec())
             cur_site = None
@@ -436,8 +437,14 @@ def build_unit(spec, repo=REPO):
                 except (rsx.LexError, IndexError):
                     continue
                 for si, (a, b, _t) in enumerate(blk):
-                    if any(an.st[q].kind == "str" and an.st[q].text == lit for q in range(a, b + 1)):
-                        if best is None or (b - a) < best:
+                    if lit.startswith("call:"):
+                        hit_ = any(rsx.is_id(an.st[q], lit[5:]) and q + 1 <= b and rsx.is_p(an.st[q + 1], "(") for q in range(a, b + 1))
+                    else:
+                        hit_ = any(an.st[q].kind == "str" and an.st[q].text == lit for q in range(a, b + 1))
+                    if hit_:
+                        # a literal anchors the innermost statement that contains it; a callee name anchors
+                        # the outermost one (a top-level statement of the fn body)
+                        if best is None or ((b - a) < best and not lit.startswith("call:")):
                             best, first, stmts = (b - a), si, blk
                         break
             if first is None or first + nst > len(stmts):
